@@ -167,7 +167,14 @@ func (s *SMS) HijackAuth(w http.ResponseWriter, r *http.Request, handled bool) (
 
 	authboss.PutSession(w, SessionSMSPendingPID, user.GetPID())
 	err := s.SendCodeToUser(w, r, user.GetPID(), number)
-	if err != nil && err != errSMSRateLimit {
+	if err == errSMSRateLimit {
+		// No new code was sent. A code still held by the session was sent for
+		// whoever was pending before: it may only stay valid if that was this
+		// same user, otherwise it would complete this user's login.
+		if pending, ok := authboss.GetSession(r, SessionSMSPendingPID); !ok || pending != user.GetPID() {
+			authboss.DelSession(w, SessionSMSSecret)
+		}
+	} else if err != nil {
 		return false, err
 	}
 
